@@ -291,3 +291,27 @@ pub fn c14_wrapped_raw() {
     cover!(true, "end reached");
     sym::forget((o, t, t5));
 }
+
+// @h prop=C14 tier=quick kind=proof timeout=900 unwindset="from_fn|drop_glue|drop_in_place:258" inst="Wrapped<u8> Huffman-ENCODED item (uniform 2-bit code over 4 symbolic symbols, table via hook; no B-tree)" bounds="item = the 4 code words of one symbolic byte; clone_onto targets of 2 and 5 symbolic bytes" desc="into_owned decodes exactly the symbols; clone_onto leaves the target equal to into_owned whatever it held (shorter / longer)"
+#[cfg_attr(kani, kani::proof, kani::unwind(8))]
+pub fn c14_wrapped_encoded() {
+    use flatcontainer::impls::huffman_container::verif_hooks::Code;
+    let syms = sym::bytes::<4>();
+    let code = Code::<u8>::uniform_table(2, &syms);
+    let bytes = sym::bytes::<1>();
+    let x = code.read(&bytes, (0, 8));
+    let o: Vec<u8> = x.into_owned();
+    assert!(o.len() == 4, "C14: encoded item decodes to a wrong number of symbols");
+    let j = sym::usize();
+    sym::assume(j < 4);
+    let expect = syms[((bytes[0] >> (6 - 2 * j)) & 3) as usize];
+    assert!(o[j] == expect, "C14: into_owned of an encoded item yields a wrong symbol");
+    let mut t = target(2);
+    x.clone_onto(&mut t);
+    assert!(t.len() == 4 && t[j] == expect, "C14: clone_onto (encoded item, shorter target) differs from into_owned");
+    let mut t5 = target(5);
+    x.clone_onto(&mut t5);
+    assert!(t5.len() == 4 && t5[j] == expect, "C14: clone_onto (encoded item, longer target) differs from into_owned");
+    cover!(true, "end reached");
+    sym::forget((code, o, t, t5));
+}
